@@ -23,6 +23,11 @@ out = ["# Breaking changes used by `./check selftest-sensitivity`", "",
        "Result = the property's quick tier (16 lifetimes, <= 150 s) on a scratch worktree with the change applied.", "",
        "| change | property | result | first violation classes reported |", "|---|---|---|---|"]
 for (name, prop), (res, secs, cls) in sorted(rows.items()):
+    mp = os.path.join(HERE, "seeded", name, "meta.json")
+    exp = json.load(open(mp)).get("expected_detected", True) if os.path.exists(mp) else True
+    if not exp:
+        res = "not reported, as expected" if res == "missed" else "REPORTED although not expected"
+        cls = json.load(open(mp)).get("why_not_expected", "")
     out.append(f"| `{name}` | {prop} | **{res}** ({secs}s) | `{cls[:300]}` |")
 out += ["", "## What each seeded change needs in order to manifest", ""]
 for d in sorted(glob.glob(os.path.join(HERE, "seeded", "*"))):
